@@ -413,31 +413,7 @@ impl<T: GseDecapMemory, C: CrcCalculator, MHEM: MandatoryHeaderExtensionManager>
                 }
             };
         };
-        // get pdu buffer
-        let mut pdu_buffer = match self.memory.new_pdu() {
-            Ok(pdu) => pdu,
-            Err(err) => {
-                self.last_label = None;
-                return Err((DecapError::ErrorMemory(err), pkt_len));
-            }
-        };
-
-        // check pdu buffer size
-        let pdu_buffer_len = pdu_buffer.len();
-        if pdu_buffer_len + label_len + header_ext_len + PROTOCOL_LEN < gse_len {
-            self.last_label = None;
-            return match self.memory.provision_storage(pdu_buffer) {
-                Ok(()) => Err((DecapError::ErrorSizePduBuffer, pkt_len)),
-                // the memory refuses the buffer: hand it to the caller
-                Err(err) => Err((DecapError::ErrorMemory(err), pkt_len)),
-            };
-        }
-        let calculed_pdu_len = gse_len - label_len - header_ext_len - PROTOCOL_LEN;
-
-        // read pdu
-        pdu_buffer[..calculed_pdu_len].copy_from_slice(&buffer[offset..offset + calculed_pdu_len]);
-
-        // update last label
+        // update last label (before taking a storage buffer: the error exits below own nothing)
         let current_label = match label_type {
             // read last_label
             LabelType::ReUse => match self.last_label {
@@ -466,6 +442,30 @@ impl<T: GseDecapMemory, C: CrcCalculator, MHEM: MandatoryHeaderExtensionManager>
                 label
             }
         };
+
+        // get pdu buffer
+        let mut pdu_buffer = match self.memory.new_pdu() {
+            Ok(pdu) => pdu,
+            Err(err) => {
+                self.last_label = None;
+                return Err((DecapError::ErrorMemory(err), pkt_len));
+            }
+        };
+
+        // check pdu buffer size
+        let pdu_buffer_len = pdu_buffer.len();
+        if pdu_buffer_len + label_len + header_ext_len + PROTOCOL_LEN < gse_len {
+            self.last_label = None;
+            return match self.memory.provision_storage(pdu_buffer) {
+                Ok(()) => Err((DecapError::ErrorSizePduBuffer, pkt_len)),
+                // the memory refuses the buffer: hand it to the caller
+                Err(err) => Err((DecapError::ErrorMemory(err), pkt_len)),
+            };
+        }
+        let calculed_pdu_len = gse_len - label_len - header_ext_len - PROTOCOL_LEN;
+
+        // read pdu
+        pdu_buffer[..calculed_pdu_len].copy_from_slice(&buffer[offset..offset + calculed_pdu_len]);
 
         // return status and pkt_length
         let metadata = DecapMetadata {
